@@ -108,6 +108,7 @@ def run_one(lines, x, schedule, keep_trace=False):
 
 def judge(events, reqlog, devs, final_instances, errors):
     probs = []
+    sym = []             # symptoms: (signature, what, instance ids involved, group)
     info = collections.Counter()
     by_iid = collections.defaultdict(list)       # iid -> [(event index, tick, phase)]
     name_of = {}
@@ -132,6 +133,9 @@ def judge(events, reqlog, devs, final_instances, errors):
         if same_tick:
             info["class:requests-in-same-tick"] += 1
             disturbed[rid].add("same-tick-request")
+        if rid in cancel_ids and cancel_ids[rid] <= q:
+            info["void-requests"] += 1      # the user cancelled this instruction before its command was requested: no claim
+            continue
         for iid, evs in by_iid.items():
             if iid == rid or group_of(name_of[iid]) != g:
                 continue
@@ -144,13 +148,14 @@ def judge(events, reqlog, devs, final_instances, errors):
                 disturbed[iid].add("replaced")
                 info["alive-overlap"] += 1
                 if fin is None or fin[1] > q + 1:
-                    probs.append((f"C11:older-not-cancelled:{g}:{name_of[iid]}-then-{name}",
-                                  f"{name} ({(rid or '?')[-4:]}) was requested in tick {q} while {name_of[iid]} ({iid[-4:]}) was running, but the "
-                                  f"older one was not finalized by tick {q + 1}: {[(tk, p) for _, tk, p in evs]}"))
+                    sym.append((f"C11:older-not-cancelled:{g}:{name_of[iid]}-then-{name}",
+                                f"{name} ({(rid or '?')[-4:]}) was requested in tick {q} while {name_of[iid]} ({iid[-4:]}) was running, but the "
+                                f"older one was not finalized by tick {q + 1}: {[(tk, p) for _, tk, p in evs]}", {iid, rid}, g))
                 late = [(tk, p) for i, tk, p in evs if p == "exec" and tk > q]
                 if late:
-                    probs.append((f"C11:older-executes-after-newer-requested:{g}:{name_of[iid]}-then-{name}",
-                                  f"{name_of[iid]} ({iid[-4:]}) still executes {late} after {name} ({(rid or '?')[-4:]}) was requested in tick {q}"))
+                    sym.append((f"C11:older-executes-after-newer-requested:{g}:{name_of[iid]}-then-{name}",
+                                f"{name_of[iid]} ({iid[-4:]}) still executes {late} after {name} ({(rid or '?')[-4:]}) was requested in tick {q}",
+                                {iid, rid}, g))
     for iid in by_iid:
         if iid in cancel_ids:
             disturbed[iid].add("user-cancel")
@@ -180,9 +185,9 @@ def judge(events, reqlog, devs, final_instances, errors):
                 arrivals = {r[2]: r[0] for r in reqlog}
                 how = "requested-in-same-tick" if len({arrivals.get(i) for i in iids}) == 1 else "requested-in-different-ticks"
                 names = "+".join(sorted({name_of[i] for i in iids}))
-                probs.append((f"C11:two-instances-execute-in-one-tick:{g}:{names}:{how}",
-                              f"tick {tk}: exec events of {[(name_of[i], i[-4:]) for i in iids]} (requests arrived in ticks "
-                              f"{[arrivals.get(i) for i in iids]})"))
+                sym.append((f"C11:two-instances-execute-in-one-tick:{g}:{names}:{how}",
+                            f"tick {tk}: exec events of {[(name_of[i], i[-4:]) for i in iids]} (requests arrived in ticks "
+                            f"{[arrivals.get(i) for i in iids]})", set(iids), g))
 
     # life-cycle automaton per instance
     last_tick = HORIZON - 1
@@ -195,7 +200,7 @@ def judge(events, reqlog, devs, final_instances, errors):
         def flag(kind, text):
             if kind not in flagged:
                 flagged.add(kind)
-                probs.append((f"C11:{kind}:{name}:{why}", f"{name} ({iid[-4:]}) {text}: {[(tk, p) for _, tk, p in evs]}"))
+                sym.append((f"C11:{kind}:{name}:{why}", f"{name} ({iid[-4:]}) {text}: {[(tk, p) for _, tk, p in evs]}", {iid}, group_of(name)))
         for _, tk, p in evs:
             if st == "finalized":
                 flag(f"{p}-after-finalize", f"has a {p} event in tick {tk} after it was finalized")
@@ -222,8 +227,49 @@ def judge(events, reqlog, devs, final_instances, errors):
                 info["still-running-at-horizon"] += 1
     late_init = [tk for (tk, name, phase, iid, it) in events if phase == "init" and tk > last_tick - SETTLE]
     if final_instances and not late_init:
-        probs.append((f"C11:instance-left-at-end:{','.join(final_instances)}",
-                      f"uod.command_instances = {final_instances} at tick {last_tick}, no command was started in the last {SETTLE} ticks"))
+        sym.append((f"C11:instance-left-at-end:{','.join(final_instances)}",
+                    f"uod.command_instances = {final_instances} at tick {last_tick}, no command was started in the last {SETTLE} ticks",
+                    {i for i in by_iid if name_of[i] in final_instances}, None))
+    # Root-cause diagnosis: collapse the symptoms of one cause into one signature built from the facts of the execution.
+    # (a) an accepted cancel of a UOD item whose command had not started yet did not prevent the start (known, C15/C12):
+    #     the node is cancelled, the command runs anyway and a later cancellation of it fails half-way.
+    pre_cancelled = set()
+    for d in devs:
+        if d["req"][0] == "cancel" and d["accepted"] and d["item_id"] in by_iid:
+            ini = first(d["item_id"], "init")
+            if ini is not None and ini[1] >= d["tick"]:
+                pre_cancelled.add(d["item_id"])
+    # (b) two requests of one group arrive in the same tick and more than one command of the group is started in that tick
+    both_started = {}
+    arrivals = collections.defaultdict(list)
+    for (q, name, rid, nev) in reqlog:
+        arrivals[(q, group_of(name))].append((name, rid, nev))
+    for (q, g), reqs in sorted(arrivals.items()):
+        if len(reqs) < 2 or g in both_started:
+            continue
+        inits = [iid for (tk, name, phase, iid, it) in events if phase == "init" and tk == q and group_of(name) == g]
+        if len(inits) < 2:
+            continue
+        rids = {r[1] for r in reqs}
+        nev = min(r[2] for r in reqs)
+        older = any(i not in rids and group_of(name_of[i]) == g and first(i, "init")[0] < nev
+                    and (first(i, "finalize") is None or first(i, "finalize")[0] >= nev) for i in by_iid if first(i, "init"))
+        kind = "same-name" if len({r[0] for r in reqs}) == 1 else "overlap"
+        both_started[g] = (kind, "older-running" if older else "no-older", q, sorted((r[0], r[1][-4:]) for r in reqs))
+    for g, (kind, older, q, pair) in sorted(both_started.items()):
+        if not any(s_[2] & pre_cancelled for s_ in sym if s_[3] == g):
+            probs.append((f"C11:requests-in-same-tick-both-started:{kind}:{older}",
+                          f"requests {pair} arrived in tick {q} and more than one command of the group was started in that tick (the request "
+                          f"queued last starts first and is then cancelled by a request queued before it); symptoms: {sorted({s_[0] for s_ in sym if s_[3] == g})}"))
+    for sig, what, involved, g in sym:
+        hit = sorted(involved & pre_cancelled)
+        if hit:
+            probs.append((f"C11:cancel-before-start-ignored:{name_of[hit[0]]}",
+                          f"{name_of[hit[0]]} ({hit[0][-4:]}) was cancelled by the user before it had started, started anyway, and then: {what} [{sig}]"))
+        elif g in both_started:
+            continue
+        else:
+            probs.append((sig, what))
     info["instances"] = len(by_iid)
     info["nontrivial"] = int(bool(info["alive-overlap"] or info["class:requests-in-same-tick"] or info["class:stop-hit-live-instance"]
                                   or info["class:cancel-hit-live-instance"]))
